@@ -63,7 +63,7 @@ def conclude(spec, cfgs, tot, tier, seed, t0):
             best = None
         if best is None:
             best = harness.run(cfg, tuple(vr["choices"]), list(spec.monitors(cfg)))
-        v = next((x for x in best.violations if x.clause == clause), None)
+        v = explore.unlisted(spec, cfg, best, clause)
         if v is None:
             print("HARNESS-ERROR: violation %s on %s did not reproduce" % (clause, cfg.get("name")))
             return 2
